@@ -179,12 +179,7 @@ Aux:
 				ss.Let(asym, defaultValue(ss, ad.Default, depth))
 			}
 		case auxMode:
-			val := ad.Default
-			if list, ok := val.(List); ok && 1 < len(list) {
-				d2 := depth + 1
-				val = ss.Eval(ListToFunc(ss, list, d2), d2)
-			}
-			ss.Let(Symbol(ad.Name), val)
+			ss.Let(Symbol(ad.Name), defaultValue(ss, ad.Default, depth))
 		}
 	}
 	return lam.BoundCall(ss, depth)
